@@ -39,3 +39,22 @@ Proof.
   rewrite Ex, Eo. pose proof (nrm2_nonneg w). lra.
 Qed.
 End LS.
+
+(* Residuals never increase when the search space grows: if the first q columns of M' are those of M (nested Krylov bases; q = 0 is the
+   restart from the current iterate, whose residual is the right-hand side of the new cycle), the minimal residual over the q' >= q
+   columns of M' is at most the residual of ANY coefficient vector over the q columns of M. *)
+Theorem nested_spaces_monotone (p q q' : nat) (M M' : nat -> nat -> R) (b y y' : nat -> R) :
+  (q <= q')%nat -> (forall i j, (j < q)%nat -> M' i j = M i j) ->
+  normal_eq p q' M' b y' -> nrm2 p (resid q' M' b y') <= nrm2 p (resid q M b y).
+Proof.
+  intros Hq HM Hy'.
+  set (z := fun j => if (j <? q)%nat then y j else 0).
+  eapply Rle_trans; [apply (normal_equations_minimise p q' M' b y' z Hy')|].
+  apply Req_le. unfold nrm2. apply (sumR_ext RR). intros i _. f_equal; unfold resid; f_equal; unfold Mv.
+  all: replace q' with (q + (q' - q))%nat by lia; rewrite (sumR_app RR);
+    rewrite (sumR_ext RR q (fun j => M' i j * z j) (fun j => M i j * y j))
+      by (intros j Hj; unfold z; replace (j <? q)%nat with true by (symmetry; apply Nat.ltb_lt; exact Hj); now rewrite HM);
+    rewrite (sumR_ext RR (q' - q) (fun k => M' i (q + k)%nat * z (q + k)%nat) (fun _ => @c0 RR))
+      by (intros k _; unfold z; replace (q + k <? q)%nat with false by (symmetry; apply Nat.ltb_ge; lia); rr; ring);
+    rewrite (sumR_zero RR); rr; ring.
+Qed.
